@@ -43,6 +43,15 @@ def run(ck, ctx):
     g2 = I2.g
     runs = [c for c in I2.call_log if c[0].qualname == "CphotAng.run"]
     if not runs:
+        combos = [e for e in r.effects if e.kind == "dask-combinator"]
+        for e in combos:
+            ck.ob("R10.3", f"no bag combinator besides map/compute [.{e.data.get('name')}]", False, e.node,
+                  "CphotAng.__call__", "the events are not handed to the kernel one by one through map(): what a "
+                  "partition-wise or reducing combinator returns for an event can depend on the other events of its "
+                  "partition (this claim covers the element-wise pipeline only)",
+                  construct=f"CphotAng.__call__: bag combinator {e.data.get('name')}")
+        if combos:
+            return
         raise AnalysisError("kernel not reached from the batch call")
     funcs = {}
     seen_run = False
